@@ -5,6 +5,7 @@ import (
 	"go/token"
 	"go/types"
 	"sort"
+	"strconv"
 	"strings"
 
 	"github.com/neelance/astrewrite"
@@ -218,7 +219,10 @@ func (s *Sources) UnresolvedImports(skip ...string) []string {
 	imports := []string{}
 	for _, file := range s.Files {
 		for _, imp := range file.Imports {
-			path := strings.Trim(imp.Path.Value, `"`)
+			path, err := strconv.Unquote(imp.Path.Value) // may be a raw string literal
+			if err != nil {
+				path = strings.Trim(imp.Path.Value, `"`)
+			}
 			if _, ok := seen[path]; !ok {
 				if !strings.HasSuffix(path, "_test") {
 					imports = append(imports, path)
